@@ -63,8 +63,8 @@ def gen_c01(r, big=False):
                 ops.append("yield")
             else:
                 ops.append("intr %s %d" % (r.choice([x for x in names if x != t] or names), r.choice([4, 11])))
-        for i in range(nm):       # release everything at the end (no-op when not held; twice for recursive depth)
-            ops += ["unlock m%d" % i] * 3
+        for i in range(nm):       # release everything at the end (no-op when not held; once per acquisition for recursive depth)
+            ops += ["unlock m%d" % i] * max(1, sum(1 for o in ops if o.split()[0] in ("lock", "trylock") and o.split()[1] == "m%d" % i))
         scripts.append((t, ops))
     lines += threads_lines(scripts)
     for _ in range(r.randint(0, 3)):
